@@ -25,6 +25,12 @@ BASES = {
     # repeated branches: the last q-point lists the same frequencies as the one before it, two degenerate branches inside a q-point
     "dupq": dict(nv=5, nq=3, na=1, dupq=True, lattice="power", system="orthorhombic", compset="minimal", static="generic", weights="increasing",
                  qha=dict(T_MIN=0, NT=3, DT=500, DT_SAMPLE=500, NTV=25, DELTA_P=1.5, DELTA_P_SAMPLE=1.5)),
+    # q-points whose printed coordinate labels coincide (few digits) while weights and frequencies differ
+    "qlabel": dict(nv=5, nq=4, na=1, qlabels="collide", lattice="none", system="cubic", compset="minimal", static="cubicfit", weights="increasing",
+                   qha=dict(T_MIN=0, NT=3, DT=500, DT_SAMPLE=500, NTV=25, DELTA_P=1.5, DELTA_P_SAMPLE=1.5)),
+    # mixed shear constants with equal axial strains (no lattice block): column orders decide the task-creation order
+    "trig": dict(nv=5, nq=2, na=1, lattice="none", system="trigonal7", declare=False, compset="nonzero", static="generic", weights="increasing",
+                 qha=dict(T_MIN=0, NT=2, DT=800, DT_SAMPLE=800, NTV=21, DELTA_P=2.0, DELTA_P_SAMPLE=2.0)),
     # a dense q-mesh (beyond any chunk size an implementation might use): 300 q-points x 3 modes
     "dense": dict(nv=5, nq=300, na=1, lattice="none", system="cubic", compset="minimal", static="cubicfit", weights="increasing",
                   qha=dict(T_MIN=0, NT=2, DT=900, DT_SAMPLE=900, NTV=21, DELTA_P=2.0, DELTA_P_SAMPLE=2.0)),
@@ -162,7 +168,7 @@ def transformations(name, quick):
         out += [{"kind": "wscale", "factor": 7.5}]
         return out
     npm = 3 * na
-    ncol = len(synth.INDEPENDENT[spec["system"]])
+    ncol = len(synth.make(spec)["supplied"])
     out = []
     out += [{"kind": "qperm", "perm": list(p)} for p in itertools.permutations(range(nq - 1)) if list(p) != list(range(nq - 1))]
     for q in range(nq):
@@ -201,7 +207,7 @@ def transformations(name, quick):
 
 
 def explore(ctx):
-    ctx.rule = ("4 base data sets (monoclinic 13 columns / cubic 3 columns / orthorhombic 9 columns with spline interpolation / one whose last q-point repeats the previous one's branches and that has degenerate branches), a dense "
+    ctx.rule = ("6 base data sets (q-points with coinciding coordinate labels / trigonal table with all 15 non-vanishing columns, no system requested and no lattice block / monoclinic 13 columns / cubic 3 columns / orthorhombic 9 columns with spline interpolation / one whose last q-point repeats the previous one's branches and that has degenerate branches), a dense "
                 "300-q-point set (reversal, rotations, swaps around positions 64/128/256, mode orders at those q-points) and one small set per "
                 "documented interpolator for the volume-block clause; "
                 "re-presentations: all orders of q-points 2..n with weights, mode orders within each q-point (all n! in thorough, "
